@@ -104,7 +104,7 @@ class Proc:
     def __init__(self, key, params, source=None, requires=None, ensures=None, raises=None, modifies=(),
                  loops=None, locals=None, calls=None, globals=None, result=OBJ, varargs=None,
                  defaults=None, trusted=False, note='', classname=None, finite=None, attr_alias=None,
-                 opaque_calls=None, pure=False, ghost_pre=None):
+                 opaque_calls=None, pure=False, ghost_pre=None, dynattr=None, setattr_=None):
         self.key = key
         self.source = source          # 'ro.py:C3._merge' or None (assumed contract)
         self.params = list(params)    # [(name, Ty)]
@@ -127,6 +127,8 @@ class Proc:
         self.opaque_calls = opaque_calls or {}
         self.pure = pure
         self.ghost_pre = ghost_pre
+        self.dynattr = dynattr or {}
+        self.setattr_ = setattr_ or {}
 
 
 class Registry:
